@@ -344,11 +344,12 @@ impl ParserListener for Screen {
                     continue;
                 }
                 let char = line.entry(x).or_insert(default_char.clone()).data.clone();
+                // A placeholder whose wide lead was overwritten holds an empty
+                // string: it is not wide and contributes nothing.
                 is_wide_char = char
                     .chars()
                     .next()
-                    .expect("can not read char")
-                    .width()
+                    .and_then(|c| c.width())
                     .is_some_and(|s| s == 2);
                 result.push_str(&char);
             }
